@@ -166,7 +166,12 @@ def c01Step (s : C01State) (req : List Sx) : C01State × String :=
       | _ => none) es
     match names, env, QM.RefSem.parseProgram prog with
     | some names, some env, some cs =>
-      let c : Ctx := ⟨{ fuel := guardFuel s.table }, s.table, fun n => (List.lookup n names).getD 0, []⟩
+      -- names the table does not know are interned injectively above the known ones
+      let nm : String → Nat := fun n =>
+        match List.lookup n names with
+        | some k => k
+        | none => 1000003 + n.foldl (fun a ch => a * 1114112 + ch.toNat + 1) 0
+      let c : Ctx := ⟨{ fuel := guardFuel s.table }, s.table, nm, []⟩
       let ft := if flowKind = "ok" then okTy c else nilTy c
       match ft with
       | some ft =>
